@@ -399,6 +399,22 @@ def corpus():
     # public import chain
     out.append(({"x.proto": P2 + "package x; message X { }\n", "a.proto": P2 + 'import public "x.proto";\n',
                  "t.proto": P2 + 'import "a.proto";\nmessage M { optional x.X f = 1; }\n'}, ["t.proto"], "corpus"))
+    # corpus/C27/*.proto: the smallest input of every disagreement found by the generated strata (one class each; a file whose name is
+    # in c27gen.GATED is read only when that name is switched on, see there)
+    on = c27gen.gated_on()
+    d = os.path.join(VERIF, "corpus", ID)
+    for fn in sorted(os.listdir(d)) if os.path.isdir(d) else []:
+        stem = fn[:-len(".proto")]
+        if fn.endswith(".proto") and (stem not in c27gen.GATED or stem in on):
+            out.append(({"t.proto": open(os.path.join(d, fn)).read()}, ["t.proto"], "corpus"))
+    if "range-endpoint-in-19000-19999" in on:
+        for body in ("extensions 19000;", "extensions 19000 to 19999;", "reserved 18999 to 19000;", "reserved 19999 to 20000;", "reserved 19500 to 19600;",
+                     "extensions 100 to 20000;", "reserved 100 to 20000;"):
+            out.append(({"t.proto": P2 + "message M { %s }\n" % body}, ["t.proto"], "corpus"))
+    if "json-name-bracketed" in on:
+        for v in ("'[]'", "'[a.b]'", "'[x'", "'x]'", "'[[x]]'"):
+            out.append(({"t.proto": P2 + "message M { optional int32 f = 1 [json_name = %s]; }\n" % v}, ["t.proto"], "corpus"))
+            out.append(({"t.proto": 'edition = "2023";\nmessage M { int32 f = 1 [json_name = %s]; }\n' % v}, ["t.proto"], "corpus"))
     return out
 
 
@@ -425,6 +441,30 @@ def norm_path(d):
     return d
 
 
+def strip_noise(text):
+    """comments out, string literals emptied (a comment may stand between any two tokens)"""
+    return re.sub(r'"(?:\\.|[^"\\\n])*"|\'(?:\\.|[^\'\\\n])*\'|//[^\n]*|/\*.*?\*/', lambda m: '""' if m.group(0)[0] in "\"'" else " ", text, flags=re.S)
+
+
+def int_lit(tok):
+    tok = re.sub(r"\s", "", tok)
+    return int(tok, 8) if re.fullmatch(r"-?0[0-7]+", tok) else int(tok, 0)
+
+
+def range_endpoint_in_reserved_block(files):
+    """how many end points in 19000..19999 the `reserved` / `extensions` statements of the file set name"""
+    n = 0
+    for text in files.values():
+        for stmt in re.findall(r"\b(?:reserved|extensions)\b([^;{}\[]*)", strip_noise(text)):
+            for tok in re.findall(r"-?\s*(?:0[xX][0-9a-fA-F]+|\d+)\b", stmt):
+                try:
+                    if 19000 <= int_lit(tok) <= 19999:
+                        n += 1
+                except ValueError:
+                    pass
+    return n
+
+
 ENUM_ALIAS_KEY = "descriptor-differs:message_type.field<TYPE_ENUM>.default_value"      # as listed in KNOWN_FINDINGS.txt
 
 
@@ -435,14 +475,12 @@ def alias_names(files, detail):
         return False
     a, b = m.groups()
     for text in files.values():
-        # comments and string literals out first (a comment may stand between any two tokens)
-        text = re.sub(r'"(?:\\.|[^"\\\n])*"|\'(?:\\.|[^\'\\\n])*\'|//[^\n]*|/\*.*?\*/', lambda m: '""' if m.group(0)[0] in "\"'" else " ", text, flags=re.S)
+        text = strip_noise(text)
         for body in re.findall(r"\benum\s+\w+\s*\{([^{}]*)\}", text):
             nums = {}
             for name, num in re.findall(r"\b(\w+)\s*=\s*(-?\s*(?:0[xX][0-9a-fA-F]+|\d+))", body):
-                num = re.sub(r"\s", "", num)
                 try:
-                    nums[name] = int(num, 0) if not re.fullmatch(r"-?0\d+", num) else int(num, 8)
+                    nums[name] = int_lit(num)
                 except ValueError:
                     pass
             if a in nums and b in nums and nums[a] == nums[b]:
@@ -481,13 +519,14 @@ HEADER = ("From Coq Require Import List NArith ZArith Bool.\nImport ListNotation
 
 
 def judge(ctx, files, request, klass, o, terms, meta):
-    """the differential oracle on one file set: o is the harness's answer (mode compile)"""
+    """the differential oracle on one file set: o is the harness's answer (mode compile); returns the set of keys it reported"""
+    reported = set()
     key = (tuple(sorted(files.items())), tuple(request))
     replay = {"files": files, "request": request, "generated_as": klass}
     if "crash" in o or "panic" in o:
         ctx.count(key, True, "crash")
         ctx.violation("panic", "one of the compilers panicked (or the harness crashed) on a generated file set", dict(replay, observed=o))
-        return
+        return {"panic"}
     so, sn = o["old"], o["new"]
     verdict = ("accept" if so["ok"] else "reject") + "/" + ("accept" if sn["ok"] else "reject")
     ctx.count(key, so["ok"] or sn["ok"], klass.split(":")[0] + " " + verdict)
@@ -497,17 +536,23 @@ def judge(ctx, files, request, klass, o, terms, meta):
         if so["ok"]:
             k2 = "stable-accepts-experimental-rejects:" + norm_err((sn["errs"] or ["?"])[0])
             what = "the stable compiler accepts the file set, the experimental compiler rejects it"
+            nend = range_endpoint_in_reserved_block(files)
+            if k2.endswith(":field-number-out-of-range") and nend and all(norm_err(e) == "field-number-out-of-range" for e in sn["errs"]) \
+                    and len(sn["errs"]) == min(nend, 6):
+                # one key per cause (the message is also the one for a field number that really is out of range): exactly one
+                # error per such end point and no other error (the harness hands over at most six errors)
+                k2 += ":range-endpoint-in-19000-19999"
         else:
             k2 = "stable-rejects-experimental-accepts:" + norm_err((so["errs"] or ["?"])[0])
             what = "the stable compiler rejects the file set, the experimental compiler accepts it"
         if not excluded(k2, replay, o):
             ctx.violation(k2, what, replay)
-        return
+        return {k2}
     if not so["ok"]:
-        return
+        return reported
     if "cmp_error" in o:
         ctx.violation("comparison-failed", "the two descriptors could not be compared: " + o["cmp_error"], replay)
-        return
+        return {"comparison-failed"}
     for f in o["cmp"]:
         for d in f["diffs"]:
             keys = set()
@@ -528,6 +573,7 @@ def judge(ctx, files, request, klass, o, terms, meta):
                             keys.add("descriptor-differs:" + norm_path(d))
             if not keys:
                 keys.add("descriptor-differs:" + norm_path(d))
+            reported |= keys
             for k2 in sorted(keys):
                 if not excluded(k2, replay, o):
                     ctx.violation(k2, "both compilers accept the file set but the descriptors of %s differ at %s" % (f["path"], d),
@@ -535,6 +581,7 @@ def judge(ctx, files, request, klass, o, terms, meta):
     for f, tr in zip(o["cmp"], o.get("trees") or []):
         terms.append("DC (%s) (%s) %s" % (tree_term(tr["old"]), tree_term(tr["new"]), coq_bool(f["equal"])))
         meta.append(("compile", replay, f))
+    return reported
 
 
 def three_way(ctx, terms, meta):
@@ -559,9 +606,10 @@ def three_way(ctx, terms, meta):
         shutil.rmtree(tmp, ignore_errors=True)
     proj_e = dict(zip(okk, po))
     # the differential oracle on these programs as on all others
+    dkeys = []          # per program: the keys the differential oracle reported for it
     for (label, _), t, od, o in zip(progs, texts, orders, ctx.impl("dualcompile", [{"mode": "compile", "files": t, "request": od}
                                                                                    for t, od in zip(texts, orders)])):
-        judge(ctx, t, od, "miniproto:" + label, o, terms, meta)
+        dkeys.append(judge(ctx, t, od, "miniproto:" + label, o, terms, meta) or set())
     verdict_terms, vmeta, desc_terms, dmeta = [], [], [], []
     for k, ((label, files), t) in enumerate(zip(progs, texts)):
         if "ok" not in so[k] or "ok" not in eo[k]:
@@ -606,9 +654,14 @@ def three_way(ctx, terms, meta):
                   "stable": {"ok": so[k]["ok"]}, "experimental": {"ok": eo[k]["ok"], "errs": eo[k].get("errs", [])}}
             if so[k]["ok"] != eo[k]["ok"]:
                 continue        # an accept/reject difference: reported by the differential oracle below with its own key
-            ctx.violation("descriptor-differs:experimental-differs-from-specification",
-                          "both compilers accept the file set; the stable compiler's descriptor projection equals the C02 specification's, "
-                          "the experimental compiler's does not", rp)
+            # The stable projection equals the specification's, so whatever separates the experimental projection from the
+            # specification is among the stable-vs-experimental differences, and the differential oracle (which compares the whole
+            # descriptors) has keyed those by cause.  If the enum-alias default is the ONLY cause it found, this is that defect seen
+            # through the specification; any other cause (or none found) keeps the key of its own.
+            k3 = ENUM_ALIAS_KEY if dkeys[k] == {ENUM_ALIAS_KEY} else "descriptor-differs:experimental-differs-from-specification"
+            ctx.violation(k3, "both compilers accept the file set; the stable compiler's descriptor projection equals the C02 specification's, "
+                              "the experimental compiler's does not" + (" (differential causes: %s)" % ", ".join(sorted(dkeys[k])) if dkeys[k] else ""),
+                          dict(rp, differential_keys=sorted(dkeys[k])))
         else:
             sides["only-stable-differs-from-spec"] += 1
     ctx.extra["three_way"] = dict(sides, programs=len(progs), all_three_agree=agree,
@@ -643,10 +696,6 @@ def run(ctx):
     nbase = len(cases)
     gated = c27gen.gated_on()
     fcases, withheld = c27gen.feature_cases(Rng(ctx.seed * 7919 + 27027), ctx.budget(1700, None), gated)
-    for name in sorted(gated):
-        p = os.path.join(VERIF, "corpus", ID, name + ".proto")
-        if os.path.exists(p):
-            fcases.append(({"t.proto": open(p).read()}, ["t.proto"], "features/gated-corpus"))
     cases += fcases
     fstep = max(1, len(fcases) // ctx.budget(10, 200))
     want |= set(range(nbase, len(cases), fstep))
@@ -692,10 +741,11 @@ def run(ctx):
     ctx.extra["exclusion_list"] = EXCLUSIONS
     ctx.extra["features_stratum"] = {
         "file_sets": len(fcases), "exhaustive_products": ctx.tier == "thorough",
-        "gated_sub_strata": {k: {"what": v, "enabled": k in gated, "withheld_file_sets": withheld.get(k, 0),
-                                 "smallest_input": "corpus/C27/%s.proto" % k} for k, v in c27gen.GATED.items()},
-        "switch": "VERIF_C27_FEATURES_GATED=1 (all) or a comma-separated list of the names; default off: on the unchanged tree each of "
-                  "these sub-strata is a disagreement of the two compilers that KNOWN_FINDINGS.txt does not list yet"}
+        "disagreeing_sub_strata_run_by_default": {k: {"what": v, "smallest_input": "corpus/C27/%s.proto" % k} for k, v in c27gen.DISAGREEING.items()},
+        "gated": {k: {"what": v[0], "keys": v[1], "enabled": k in gated, "withheld_file_sets": withheld.get(k, 0),
+                      "smallest_input": "corpus/C27/%s.proto" % k} for k, v in c27gen.GATED.items()},
+        "switch": "a gated name is generated when VERIF_C27_FEATURES_GATED=1 (all) or lists it, or as soon as KNOWN_FINDINGS.txt has a "
+                  "known: line for each of its keys"}
     ctx.extra["comparison_checked_in_coq"] = len(terms)
     for c in cases[len(corpus()):len(corpus()) + 3]:
         ctx.sample({"request": c[1], "files": c[0], "generated_as": c[2]})
@@ -719,5 +769,5 @@ def run(ctx):
                 "proto3 files; enum and message types of another file (5 kinds of library) under each file-level presence / encoding / "
                 "enum type; random pairs of features with default / lazy / packed.  Thorough tier: the products completely; quick tier: one "
                 "member of every (shape with the number types collapsed to int / float) x value combination, then random members.  "
-                "Sub-strata known to disagree on the unchanged tree are withheld unless VERIF_C27_FEATURES_GATED is set (see "
-                "features_stratum in the evidence)" % (len(corpus()), len(fcases)))
+                "The smallest input of every disagreement class these strata found is a file of corpus/C27/ and part of this corpus (see "
+                "features_stratum in the evidence for what is still gated)" % (len(corpus()), len(fcases)))
